@@ -34,6 +34,12 @@ func c18(c *Ctx) {
 	c18R4(c, "R4")
 	c18R5(c, "R5")
 	sLockDiscipline(c, "R6/S-LOCK", "Raft")
+	// followers advertise whoever sends them AppendEntries of the current term:
+	// only replication routines started by the winner of a term send, with the
+	// term frozen when they were started (round-7 seed C18-M: a leftover
+	// heartbeat routine re-stamping its request with the live term makes
+	// followers advertise a server that never led that term)
+	c01R5(c, "R7/C01.R5")
 }
 
 func c18R1(c *Ctx, rule string) {
